@@ -357,14 +357,6 @@ theorem monitor_accepts_model_run (ops : List Op) (hok : ∀ op ∈ ops, OpOk op
   have := mon_run ops 0 {} {} rel_init hok (by simpa using hlen)
   exact this.1
 
-/-- a case through every family: failures scheduled, re-initialisation, skips, export, pool exit, `end` -/
-def demoOps : List Op :=
-  [.eaInit 3 4 9, .eaAppend 2 3 5, .eaGet 1 4, .eaGet 99 4, .eaResize 1 2 3, .eaDump, .eaDup 1, .eaShrink 1 1,
-   .eaTrunc, .eaSet 0 1 7, .eaGetsize 2, .eaExport 1, .eaFree,
-   .eqInit 3, .eqAdd 1, .eqAdd 2, .eqGet 1, .eqGet 5, .eqSet 0 9, .eqSet 7 9, .eqDel, .eqLen, .eqDump, .eqFree,
-   .smInit, .smAdd 5, .smAdd 6, .smDel 0, .smMin, .smGet 1, .smGet 0, .failfrom 1, .smAdd 7, .failoff, .smFree,
-   .mpMalloc, .mpMalloc, .mpFree 0, .mpFree 99, .mpMalloc, .eaInit 2 2 1, .failat 1, .eqInit 2, .mpExit, .end_]
-
 example : ∀ op ∈ demoOps, OpOk op := by decide
 /-- the run is not trivially accepted: the answers are real lines (`ok sz=…`, `skip`, `fail rf=1`, `end live=0 …`),
 all 45 are judged, and the evaluation agrees with the theorem -/
